@@ -10,7 +10,7 @@ Inductive builtin :=
 | BAdd | BSub | BMul | BMod
 | BLt | BLe | BEq | BNe | BGt | BGe
 | BValEq | BNotEq | BNot
-| BEach | BTake | BDrop | BCount | BAll | BRange
+| BEach | BTake | BDrop | BCount | BAll | BRange | BKeys
 | BDefer.
 
 (* chunk = list of pipelines; pipeline = non-empty list of commands *)
